@@ -4,7 +4,9 @@
 #include <cstring>
 #include <cstdlib>
 using namespace hv;
-std::string run_bs(const Args& a) {
+static std::string run_bs(const Args& a);
+static hv::Reg reg_bs("bs", &run_bs);
+static std::string run_bs(const Args& a) {
 	if (a.size() < 2) return "bad-op";
 	if (std::atoi(a[0].c_str()) != static_cast<int>(Potassco::BufferedStream::BUF_SIZE)) return "wrong-B";
 	std::istringstream in(unhex(a[1]));
